@@ -4,7 +4,9 @@ import (
 	"bytes"
 	"encoding/hex"
 	"fmt"
+	plugin "simworld/goplugin"
 	"sync"
+	"sync/atomic"
 	"time"
 
 	"simworld/h"
@@ -49,6 +51,20 @@ func init() {
 					}
 				}
 			}
+			if tier != "selftest" {
+				// a second host attaches after the first one's connection dropped
+				ns := 24
+				if tier == "thorough" {
+					ns = 2000
+				}
+				for v := 0; v < ns; v++ {
+					s := sp("C11", fmt.Sprintf("second-host/%d", v), seed+uint64(v)*7919, P("proto", "grpc", "secondhost", "1"))
+					if v >= 8 {
+						s.HotPermille, s.DelayClass, s.Focus = 50, "tiny", "grpc_stdio.go"
+					}
+					out = append(out, s)
+				}
+			}
 			n := 800
 			if tier == "thorough" {
 				n = 200000
@@ -76,7 +92,128 @@ type c11Write struct {
 	size   int
 }
 
+// runC11SecondHost: the first host's connection drops without any shutdown of
+// the plugin (host crash, upgrade: the reattach case), the plugin keeps
+// writing, a second host attaches: what was written while nobody was attached
+// is "data written before the host has attached" for the second host.
+func runC11SecondHost(r *h.Run) {
+	w := r.W
+	c := r.ConfFromParams()
+	c.Proto = "grpc"
+	ctx := "conf=" + c.String() + " second-host"
+	soA, seA, soB, seB := &syncBuf{}, &syncBuf{}, &syncBuf{}, &syncBuf{}
+	c.SyncStdout, c.SyncStderr = soA, seA
+	var mu sync.Mutex
+	hostEnds := map[*k.Endpoint]bool{}
+	w.OnConnWrite = func(e *k.Endpoint, data []byte) {
+		if o := e.Owner(); o != nil && o.Name == "host" {
+			mu.Lock()
+			hostEnds[e] = true
+			mu.Unlock()
+		}
+	}
+	nOut := []int{10, 1024, 1500, 5000}[w.Range("detached/out", 4)]
+	nErr := []int{0, 7, 1024, 3000}[w.Range("detached/err", 4)]
+	dOut, dErr := c11Fill("out", 0, nOut), c11Fill("err", 0, nErr)
+	var writeNow, written atomic.Bool
+	c.PluginMain = func(serve func()) {
+		go func() {
+			for !writeNow.Load() {
+				time.Sleep(10 * time.Millisecond)
+			}
+			simos.GetStdout().Write(dOut)
+			if nErr > 0 {
+				simos.GetStderr().Write(dErr)
+			}
+			written.Store(true)
+		}()
+		serve()
+	}
+	r.InstallPlugin(&c)
+	a := r.NewClient(c)
+	o := r.DoNoHang("A.connect", 120*time.Second, ctx, func() (any, error) {
+		cp, err := a.Client()
+		if err != nil {
+			return nil, err
+		}
+		return cp.Dispense(h.PluginName)
+	})
+	if o.Err != nil || o.Hung {
+		r.Violate("setup", "host A "+ctx, fmt.Sprint(o.Err))
+		return
+	}
+	if _, err := o.Val.(plugins.Cmd).Do("stdout", hex.EncodeToString([]byte("seen by A\n"))); err != nil {
+		r.Violate("setup", "host A write "+ctx, err.Error())
+		return
+	}
+	for i := 0; i < 50 && !bytes.Contains(soA.Bytes(), []byte("seen by A")); i++ {
+		time.Sleep(100 * time.Millisecond)
+	}
+	rc := a.ReattachConfig()
+	if rc == nil {
+		r.Violate("setup", "no reattach config "+ctx, "")
+		return
+	}
+	// host A goes away without a word
+	mu.Lock()
+	for e := range hostEnds {
+		e.Reset()
+	}
+	mu.Unlock()
+	w.CountFault("conn.rst@host-detach")
+	time.Sleep(time.Duration(100+w.Range("detached/wait", 4)*300) * time.Millisecond)
+	writeNow.Store(true)
+	// (the second host's own traffic must come after these bytes: wait until
+	// the plugin has handed them to its stdout/stderr)
+	for i := 0; i < 500 && !written.Load(); i++ {
+		time.Sleep(10 * time.Millisecond)
+	}
+	time.Sleep(time.Duration(w.Range("attach/delay", 3)) * time.Second)
+	b := plugin.NewClient(&plugin.ClientConfig{
+		HandshakeConfig: plugins.Handshake, Plugins: h.PluginSet("grpc", plugins.NewShared("hostB")),
+		AllowedProtocols: []plugin.Protocol{plugin.ProtocolGRPC}, Logger: r.Logger("hostB"), Reattach: rc,
+		SyncStdout: soB, SyncStderr: seB,
+	})
+	ob := r.DoNoHang("B.connect", 120*time.Second, ctx, func() (any, error) {
+		cp, err := b.Client()
+		if err != nil {
+			return nil, err
+		}
+		return cp.Dispense(h.PluginName)
+	})
+	if ob.Err != nil || ob.Hung {
+		r.Violate("setup", "host B "+ctx, fmt.Sprint(ob.Err))
+		return
+	}
+	ob.Val.(plugins.Cmd).Do("stdout", hex.EncodeToString([]byte("seen by B\n")))
+	wantOut := append(append([]byte(nil), dOut...), []byte("seen by B\n")...)
+	for waited := time.Duration(0); waited < 20*time.Second; waited += 200 * time.Millisecond {
+		if len(soB.Bytes()) >= len(wantOut) && len(seB.Bytes()) >= len(dErr) && written.Load() {
+			break
+		}
+		time.Sleep(200 * time.Millisecond)
+	}
+	if !written.Load() {
+		r.Violate("stdio-stalled", ctx, "the plugin's writes while no host was attached never completed")
+	}
+	if got := soB.Bytes(); !bytes.Equal(got, wantOut) {
+		r.Violate("stdio-lost", ctx+" stream=out", describeDiff(got, wantOut, dErr)+fmt.Sprintf(" (bytes written while no host was attached: %d)\n got: %q\nwant: %q\nhost A has: %q", nOut, firstN(string(got), 80), firstN(string(wantOut), 80), firstN(string(soA.Bytes()), 80)))
+	}
+	if got := seB.Bytes(); !bytes.Equal(got, dErr) {
+		r.Violate("stdio-lost", ctx+" stream=err", describeDiff(got, dErr, dOut))
+	}
+	if bytes.Contains(soA.Bytes(), dOut[:min(len(dOut), 8)]) && nOut >= 8 {
+		r.Violate("stdio-corrupt", ctx+" stream=out to-departed-host", "bytes written after host A's connection was gone arrived at host A's writer")
+	}
+	w.Probe("stdio.second-host")
+	r.DoNoHang("B.Kill", 120*time.Second, ctx, func() (any, error) { b.Kill(); return nil, nil })
+}
+
 func runC11(r *h.Run) {
+	if r.Spec.P("secondhost", "") == "1" {
+		runC11SecondHost(r)
+		return
+	}
 	w := r.W
 	c := r.ConfFromParams()
 	so, se := &syncBuf{}, &syncBuf{}
